@@ -314,8 +314,9 @@ theorem C02_fallback_fuel (data : Bytes) (ends : List (Nat × Nat × Val)) (fuel
     fallbackLoop data ends (fuel + 1) pos offs = fallbackLoop data ends fuel pos offs :=
   fallbackLoop_fuel data ends fuel pos offs h
 
-/-- `C02_fallback`: for a body made of plain lines and indirect objects whose headers stand at
-line starts (and no other line looks like a header or starts with `trailer`), the body scan
+/-- `C02_fallback`: for a body made of plain lines and indirect objects whose first byte stands at a
+line start — whether the line read there ends inside the object or beyond it (`1 0 obj<<…>>endobj`) —
+(and no other line looks like a header or starts with `trailer`), the body scan
 registers every object at its true offset, in file order, and stops on the `trailer` line. -/
 theorem C02_fallback (ends : List (Nat × Nat × Val)) (items : List Item) (tail : Bytes)
     (hok : ItemsOK ends 0 items tail)
@@ -330,20 +331,17 @@ theorem C02_cue_header (w1 w2 n g : Nat) (hw1 : 0 < w1) (hw2 : 0 < w2) (hn : n <
     matchCue (renderDec w1 n ++ 32 :: (renderDec w2 g ++ 32 :: 111 :: 98 :: 106 :: c :: t)) = some (n, g) :=
   matchCue_header w1 w2 n g hw1 hw2 hn hg c t hc
 
-/-- Non-vacuity: `%A⏎ 1 0 obj⏎ 7⏎endobj ⏎ 12 0 obj⏎ 8⏎endobj ⏎ trailer⏎` -/
+/-- Non-vacuity: `%A⏎ 1 0 obj⏎ 7⏎endobj ⏎ 12 0 obj<<>>endobj ⏎ trailer⏎` (the second object on one line) -/
 def exItems : List Item :=
   [.line [37, 65, 10],
-   .obj 1 0 [49, 32, 48, 32, 111, 98, 106, 10] [55, 10, 101, 110, 100, 111, 98, 106],
+   .obj 1 0 [49, 32, 48, 32, 111, 98, 106, 10, 55, 10, 101, 110, 100, 111, 98, 106],
    .line [10],
-   .obj 12 0 [49, 50, 32, 48, 32, 111, 98, 106, 10] [56, 10, 101, 110, 100, 111, 98, 106],
+   .obj 12 0 [49, 50, 32, 48, 32, 111, 98, 106, 60, 60, 62, 62, 101, 110, 100, 111, 98, 106],
    .line [10]]
-def exEnds : List (Nat × Nat × Val) := [(3, 19, .plain 1), (20, 37, .plain 2)]
+def exEnds : List (Nat × Nat × Val) := [(3, 19, .plain 1), (20, 38, .plain 2)]
 
-example : ItemsOK exEnds 0 exItems (kwTrailer ++ [10]) := by
-  refine ⟨by decide, by decide, by decide, by decide, by decide, by decide,
-    ⟨.plain 1, by decide, by intro id k t h; cases h⟩, by decide, by decide, by decide,
-    by decide, by decide, by decide, ⟨.plain 2, by decide, by intro id k t h; cases h⟩,
-    by decide, by decide, by decide, trivial⟩
+example : ItemsOK exEnds 0 exItems (kwTrailer ++ [10]) :=
+  itemsOK_of_itemsOKb exEnds exItems 0 _ (by decide)
 
 example : scanSpec 0 exItems [] = [((1 : Int), (⟨none, 3, 0⟩ : Entry)), (12, ⟨none, 20, 0⟩)] := by decide
 
